@@ -17,7 +17,7 @@ def cmake_sources(repo):
     txt = open(os.path.join(repo, PYDIR, 'CMakeLists.txt')).read()
     return sorted(set(re.findall(r'\b([A-Za-z0-9_]+\.cpp)\b', txt)))
 
-def run_pyrules(ws, repo, sources, dirs, tag='py', extra_flags=(), root=None):
+def run_pyrules(ws, repo, sources, dirs, tag='py', extra_flags=(), root=None, max_inst=2):
     if not os.path.exists(PYRULES):
         raise FactsError('build/pyrules missing: run ./setup.sh')
     cfg = ws.configure()
@@ -27,7 +27,7 @@ def run_pyrules(ws, repo, sources, dirs, tag='py', extra_flags=(), root=None):
     os.makedirs(outdir, exist_ok=True)
     def one(src):
         out = os.path.join(outdir, os.path.basename(src)[:-4] + '.json')
-        cmd = [PYRULES, '-dir=' + ','.join(dirs), '-out=' + out, '-root=' + (root or (repo.rstrip('/') + '/')), src, '--'] + flags
+        cmd = [PYRULES, '-dir=' + ','.join(dirs), '-out=' + out, '-max-inst=%d' % max_inst, '-root=' + (root or (repo.rstrip('/') + '/')), src, '--'] + flags
         r = subprocess.run(cmd, stdout=subprocess.PIPE, stderr=subprocess.STDOUT, text=True)
         if r.returncode != 0 or not os.path.exists(out):
             raise FactsError('pyrules failed on %s:\n%s' % (src, r.stdout[-1500:]))
@@ -193,19 +193,20 @@ class Facts:
                     out.add(f.key); work.append(f.key)
         return out
 
-def load(ws, repo, rep=None, sources=None):
+def load(ws, repo, rep=None, sources=None, max_inst=2):
     srcs = sources or cmake_sources(repo)
     disk = sorted(os.path.basename(p) for p in glob.glob(os.path.join(repo, PYDIR, '*.cpp')))
     allsrc = sorted(set(srcs) | set(disk))
     paths = [os.path.join(repo, PYDIR, s) for s in allsrc if os.path.exists(os.path.join(repo, PYDIR, s))]
     if len(paths) < 30:
         raise FactsError('only %d PyImath sources found' % len(paths))
-    tus = run_pyrules(ws, repo, paths, [PYDIR + '/'])
+    tus = run_pyrules(ws, repo, paths, [PYDIR + '/'], max_inst=max_inst)
     fx = Facts(tus)
     if rep is not None:
         rep.extra['pyimath_translation_units'] = len(tus)
         rep.extra['functions_analysed'] = len(fx.by_key)
         rep.extra['function_instances'] = len(fx.fns)
+        rep.extra['instantiations_per_pattern'] = max_inst
     return fx
 
 def positive_examples(ws):
